@@ -563,10 +563,13 @@ class YP(object):
         except StopIteration:
             pass
         finally:
-            sys.setrecursionlimit(old_recursionlimit)
-            # an aborted search must not leave its bindings behind
-            if hasattr(query, 'close'):
-                query.close()
+            try:
+                # an aborted search must not leave its bindings behind. Unwinding a deep
+                # search needs stack depth too, so close it while the limit is still raised.
+                if hasattr(query, 'close'):
+                    query.close()
+            finally:
+                sys.setrecursionlimit(old_recursionlimit)
         return result
 
     def match_dynamic(self, name, args):
